@@ -219,7 +219,7 @@ pub fn insert(d: Dialect, exec: bool) -> BoxedStrategy<InsertSpec> {
         ],
         proptest::option::weighted(0.35, conflict(d)),
         proptest::option::weighted(0.3, returning(d)),
-        proptest::option::weighted(0.1, with(d, 0, exec)),
+        proptest::option::weighted(if exec { 0.3 } else { 0.1 }, with(d, 0, exec)),
         any::<u8>(),
     )
         .prop_map(|(replace, table, columns, source, on_conflict, returning, with, api)| InsertSpec { replace, table, columns, source, on_conflict, returning, with, api })
@@ -235,7 +235,7 @@ pub fn update(d: Dialect, exec: bool) -> BoxedStrategy<UpdateSpec> {
         proptest::collection::vec(ord(d, exec), 0..2),
         proptest::option::weighted(0.3, 0u64..4),
         proptest::option::weighted(0.3, returning(d)),
-        proptest::option::weighted(0.1, with(d, 0, exec)),
+        proptest::option::weighted(if exec { 0.3 } else { 0.1 }, with(d, 0, exec)),
         any::<u8>(),
     )
         .prop_map(|(table, sets, from, wheres, orders, limit, returning, with, api)| UpdateSpec { table, sets, from, wheres, orders, limit, returning, with, api })
@@ -249,7 +249,7 @@ pub fn delete(d: Dialect, exec: bool) -> BoxedStrategy<DeleteSpec> {
         proptest::collection::vec(ord(d, exec), 0..2),
         proptest::option::weighted(0.3, 0u64..4),
         proptest::option::weighted(0.3, returning(d)),
-        proptest::option::weighted(0.1, with(d, 0, exec)),
+        proptest::option::weighted(if exec { 0.3 } else { 0.1 }, with(d, 0, exec)),
         any::<u8>(),
     )
         .prop_map(|(table, wheres, orders, limit, returning, with, api)| DeleteSpec { table, wheres, orders, limit, returning, with, api })
@@ -1000,12 +1000,35 @@ pub fn stmt_exec(o: ExecOpts) -> BoxedStrategy<Stmt> {
     .boxed()
 }
 
+/// WITH around an executable INSERT / UPDATE / DELETE (SQLite only, not in the portable subset): one CTE named `tt` that shadows the
+/// table read by every expression subquery (`.. FROM tt WHERE id < 5`), so that losing or misplacing the clause changes what the
+/// statement does. Its body is a filtered pass-through of one of the tables (no subqueries: it could not refer to `tt` itself).
+fn dml_with_exec(w: Option<WithSpec>, o: ExecOpts) -> Option<WithSpec> {
+    if o.portable {
+        return None;
+    }
+    let c0 = w?.ctes.into_iter().next()?;
+    let t = match c0.query.from.first() {
+        Some(FromSpec::Table(t, _)) => *t % 3,
+        _ => 0,
+    };
+    let bound = 2 + (c0.query.items.len() + c0.query.wheres.len()) as i64 % 5;
+    let query = passthrough_select(t, vec![E::Bin(Box::new(E::QCol(t, 0)), Op::Lt, Box::new(E::Int(bound)))], None);
+    let mut c = CteSpec { name: 200, cols: if c0.cols.is_empty() { vec![] } else { vec![0, 1, 2, 3, 4] }, materialized: c0.materialized, query: Box::new(query), derive: c0.derive };
+    if c.derive {
+        for (k, it) in c.query.items.iter_mut().enumerate() {
+            it.alias = Some(100 + k as u8);
+        }
+    }
+    Some(WithSpec { recursive: false, ctes: vec![c], search: None, cycle: None })
+}
+
 pub fn fix_exec(s: &mut Stmt, o: ExecOpts) {
     let px = |e: &E| if o.portable { portable_expr(e) } else { e.clone() };
     match s {
         Stmt::Select(q) => fix_select_exec(q, o, true),
         Stmt::Insert(i) => {
-            i.with = None;
+            i.with = dml_with_exec(i.with.take(), o);
             i.table = 2; // t3 has the unique key k and receives the inserts
             if o.portable {
                 i.replace = false;
@@ -1042,6 +1065,10 @@ pub fn fix_exec(s: &mut Stmt, o: ExecOpts) {
                     // SQLite's documented parsing ambiguity: INSERT ... SELECT ... ON CONFLICT needs a WHERE clause
                     if i.on_conflict.is_some() && sel.wheres.is_empty() {
                         sel.wheres.push(E::ConstBool(true));
+                    }
+                    if i.with.is_some() && sel.groups.is_empty() && sel.havings.is_empty() {
+                        // the source reads the CTE
+                        sel.wheres.push(E::InSub { not: false, x: Box::new(E::Int(0)) });
                     }
                 }
                 InsertSource::Default(n) => {
@@ -1091,7 +1118,7 @@ pub fn fix_exec(s: &mut Stmt, o: ExecOpts) {
             fix_returning_exec(&mut i.returning, 2);
         }
         Stmt::Update(u) => {
-            u.with = None;
+            u.with = dml_with_exec(u.with.take(), o);
             let t = u.table % 3;
             let mut seen = vec![];
             u.sets.retain(|(c, _)| {
@@ -1125,6 +1152,10 @@ pub fn fix_exec(s: &mut Stmt, o: ExecOpts) {
                 *e = rescope(&strip_aggs(&px(e)), &scope);
             }
             u.wheres = u.wheres.iter().map(|w| rescope(&strip_aggs(&px(w)), &scope)).collect();
+            if u.with.is_some() {
+                // the statement reads the CTE
+                u.wheres.push(E::InSub { not: u.sets.len() % 2 == 0, x: Box::new(E::QCol(t, 1)) });
+            }
             if !u.from.is_empty() {
                 // joined update: make the join key explicit so that each target row matches at most one source row
                 u.wheres.push(E::Bin(Box::new(E::QCol(scope[0], 0)), Op::Eq, Box::new(E::QCol(scope[1], 0))));
@@ -1142,7 +1173,7 @@ pub fn fix_exec(s: &mut Stmt, o: ExecOpts) {
             fix_returning_exec(&mut u.returning, t);
         }
         Stmt::Delete(x) => {
-            x.with = None;
+            x.with = dml_with_exec(x.with.take(), o);
             let t = x.table % 3;
             if o.portable {
                 x.returning = None;
@@ -1150,6 +1181,9 @@ pub fn fix_exec(s: &mut Stmt, o: ExecOpts) {
                 x.limit = None;
             }
             x.wheres = x.wheres.iter().map(|w| rescope(&strip_aggs(&px(w)), &[t])).collect();
+            if x.with.is_some() {
+                x.wheres.push(E::InSub { not: x.wheres.len() % 2 == 1, x: Box::new(E::QCol(t, 1)) });
+            }
             x.orders = x.orders.iter().map(|od| OrdSpec { e: not_positional(rescope(&strip_aggs(&px(&od.e)), &[t])), dir: od.dir.clone(), nulls: od.nulls }).collect();
             if x.limit.is_some() || !x.orders.is_empty() {
                 x.orders.push(OrdSpec { e: E::QCol(t, 0), dir: Dir::Asc, nulls: None });
